@@ -23,6 +23,7 @@
 package main
 
 import (
+	"bytes"
 	"encoding/hex"
 	"encoding/json"
 	"errors"
@@ -248,6 +249,43 @@ func classify(err error) string {
 	return "other:" + err.Error()
 }
 
+// scribble overwrites numbers in place, as the holder of a decoded value may (the exported
+// ComputeInputHash* helpers do exactly this to InputHash): SetBytes / Add reuse the words the
+// decoder allocated.  A later decode of the same text must not be affected.
+func scribble(xs ...*big.Int) {
+	pat := bytes.Repeat([]byte{0xa5}, 32)
+	for _, x := range xs {
+		x.SetBytes(pat)
+		x.Add(x, big.NewInt(1))
+	}
+}
+
+func insNumbers(u *prover.InsertionParameters) []*big.Int {
+	out := []*big.Int{&u.InputHash, &u.PreRoot, &u.PostRoot}
+	for i := range u.IdComms {
+		out = append(out, &u.IdComms[i])
+	}
+	for i := range u.MerkleProofs {
+		for j := range u.MerkleProofs[i] {
+			out = append(out, &u.MerkleProofs[i][j])
+		}
+	}
+	return out
+}
+
+func delNumbers(u *prover.DeletionParameters) []*big.Int {
+	out := []*big.Int{&u.InputHash, &u.PreRoot, &u.PostRoot}
+	for i := range u.IdComms {
+		out = append(out, &u.IdComms[i])
+	}
+	for i := range u.MerkleProofs {
+		for j := range u.MerkleProofs[i] {
+			out = append(out, &u.MerkleProofs[i][j])
+		}
+	}
+	return out
+}
+
 func goDecIns(doc []byte) (res string) {
 	defer func() {
 		if r := recover(); r != nil {
@@ -270,6 +308,21 @@ func goDecIns(doc []byte) (res string) {
 			}
 		}
 		prevIns = append([]byte{}, doc...)
+	}
+	// the holder of an earlier result changes its numbers in place (also through the repository's
+	// own ComputeInputHashInsertion); the same text decoded afterwards must still give the same value
+	{
+		var u, w prover.InsertionParameters
+		if json.Unmarshal(doc, &u) == nil {
+			func() {
+				defer func() { recover() }() // values the helper cannot pack (wider than 32 bytes) are not this class's business
+				u.ComputeInputHashInsertion()
+			}()
+			scribble(insNumbers(&u)...)
+			if err := json.Unmarshal(doc, &w); err != nil || canonIns(&w) != canonIns(&p) {
+				return fmt.Sprintf("ok-but-the-same-text-decodes-differently-after-an-earlier-result-was-changed-in-place: first=%s later=%s err=%v", canonIns(&p), canonIns(&w), err)
+			}
+		}
 	}
 	// a value decoded earlier belongs to its holder: decoding another document elsewhere must not
 	// change it
@@ -315,6 +368,19 @@ func goDecDel(doc []byte) (res string) {
 			}
 		}
 		prevDel = append([]byte{}, doc...)
+	}
+	{
+		var u, w prover.DeletionParameters
+		if json.Unmarshal(doc, &u) == nil {
+			func() {
+				defer func() { recover() }()
+				u.ComputeInputHashDeletion()
+			}()
+			scribble(delNumbers(&u)...)
+			if err := json.Unmarshal(doc, &w); err != nil || canonDel(&w) != canonDel(&p) {
+				return fmt.Sprintf("ok-but-the-same-text-decodes-differently-after-an-earlier-result-was-changed-in-place: first=%s later=%s err=%v", canonDel(&p), canonDel(&w), err)
+			}
+		}
 	}
 	if heldDel != nil && canonDel(heldDel) != heldDelCanon {
 		return fmt.Sprintf("ok-but-a-value-decoded-earlier-changed: was=%s now=%s", heldDelCanon, canonDel(heldDel))
